@@ -22,7 +22,7 @@ theorem div_u8_correct (a b : Int) (ha : IntTy.u8.InRange a) (hb : IntTy.u8.InRa
   c06_finish
 
 theorem div_u8_zero (a : Int) : div_u8 a 0 = .ok none := by
-  gen_unfold_div; c06_norm; rfl
+  gen_unfold_div; c06_zero
 
 theorem div_i8_correct (a b : Int) (ha : IntTy.i8.InRange a) (hb : IntTy.i8.InRange b) (hnz : b ≠ 0) :
     div_i8 a b = .ok (some (Int.tdiv a b)) := by
@@ -36,7 +36,7 @@ theorem div_i8_correct (a b : Int) (ha : IntTy.i8.InRange a) (hb : IntTy.i8.InRa
   c06_finish
 
 theorem div_i8_zero (a : Int) : div_i8 a 0 = .ok none := by
-  gen_unfold_div; c06_norm; rfl
+  gen_unfold_div; c06_zero
 
 theorem div_u16_correct (a b : Int) (ha : IntTy.u16.InRange a) (hb : IntTy.u16.InRange b) (hnz : b ≠ 0) :
     div_u16 a b = .ok (some (Int.tdiv a b)) := by
@@ -50,7 +50,7 @@ theorem div_u16_correct (a b : Int) (ha : IntTy.u16.InRange a) (hb : IntTy.u16.I
   c06_finish
 
 theorem div_u16_zero (a : Int) : div_u16 a 0 = .ok none := by
-  gen_unfold_div; c06_norm; rfl
+  gen_unfold_div; c06_zero
 
 theorem div_i16_correct (a b : Int) (ha : IntTy.i16.InRange a) (hb : IntTy.i16.InRange b) (hnz : b ≠ 0) :
     div_i16 a b = .ok (some (Int.tdiv a b)) := by
@@ -64,7 +64,7 @@ theorem div_i16_correct (a b : Int) (ha : IntTy.i16.InRange a) (hb : IntTy.i16.I
   c06_finish
 
 theorem div_i16_zero (a : Int) : div_i16 a 0 = .ok none := by
-  gen_unfold_div; c06_norm; rfl
+  gen_unfold_div; c06_zero
 
 /-- `div(i32, u32)` is computed in `u32` -/
 theorem div_i32_u32_correct (a b : Int) (ha : IntTy.i32.InRange a) (hb : IntTy.u32.InRange b) (hnz : b ≠ 0)
@@ -89,7 +89,7 @@ theorem div_i32_u32_exact (a b : Int) (ha : IntTy.i32.InRange a) (hb : IntTy.u32
   exact e hr
 
 theorem div_i32_u32_zero (a : Int) : div_i32_u32 a 0 = .ok none := by
-  gen_unfold_div; c06_norm; rfl
+  gen_unfold_div; c06_zero
 
 /-- `div(u32, i32)` is computed in `u32` -/
 theorem div_u32_i32_correct (a b : Int) (ha : IntTy.u32.InRange a) (hb : IntTy.i32.InRange b) (hnz : b ≠ 0)
@@ -115,7 +115,7 @@ theorem div_u32_i32_exact (a b : Int) (ha : IntTy.u32.InRange a) (hb : IntTy.i32
   exact e hr
 
 theorem div_u32_i32_zero (a : Int) : div_u32_i32 a 0 = .ok none := by
-  gen_unfold_div; c06_norm; rfl
+  gen_unfold_div; c06_zero
 
 /-- `div(i8, u8)` is computed in `i32` -/
 theorem div_i8_u8_correct (a b : Int) (ha : IntTy.i8.InRange a) (hb : IntTy.u8.InRange b) (hnz : b ≠ 0)
@@ -143,7 +143,7 @@ theorem div_i8_u8_exact (a b : Int) (ha : IntTy.i8.InRange a) (hb : IntTy.u8.InR
   exact e hr
 
 theorem div_i8_u8_zero (a : Int) : div_i8_u8 a 0 = .ok none := by
-  gen_unfold_div; c06_norm; rfl
+  gen_unfold_div; c06_zero
 
 /-- `div(u8, i64)` is computed in `i64` -/
 theorem div_u8_i64_correct (a b : Int) (ha : IntTy.u8.InRange a) (hb : IntTy.i64.InRange b) (hnz : b ≠ 0)
@@ -168,7 +168,7 @@ theorem div_u8_i64_exact (a b : Int) (ha : IntTy.u8.InRange a) (hb : IntTy.i64.I
   exact e hr
 
 theorem div_u8_i64_zero (a : Int) : div_u8_i64 a 0 = .ok none := by
-  gen_unfold_div; c06_norm; rfl
+  gen_unfold_div; c06_zero
 
 /-- `div(i64, u64)` is computed in `u64` -/
 theorem div_i64_u64_correct (a b : Int) (ha : IntTy.i64.InRange a) (hb : IntTy.u64.InRange b) (hnz : b ≠ 0)
@@ -193,7 +193,7 @@ theorem div_i64_u64_exact (a b : Int) (ha : IntTy.i64.InRange a) (hb : IntTy.u64
   exact e hr
 
 theorem div_i64_u64_zero (a : Int) : div_i64_u64 a 0 = .ok none := by
-  gen_unfold_div; c06_norm; rfl
+  gen_unfold_div; c06_zero
 
 /-- `div(u16, i32)` is computed in `i32` -/
 theorem div_u16_i32_correct (a b : Int) (ha : IntTy.u16.InRange a) (hb : IntTy.i32.InRange b) (hnz : b ≠ 0)
@@ -218,7 +218,7 @@ theorem div_u16_i32_exact (a b : Int) (ha : IntTy.u16.InRange a) (hb : IntTy.i32
   exact e hr
 
 theorem div_u16_i32_zero (a : Int) : div_u16_i32 a 0 = .ok none := by
-  gen_unfold_div; c06_norm; rfl
+  gen_unfold_div; c06_zero
 
 /-- `div(i16, u64)` is computed in `u64` -/
 theorem div_i16_u64_correct (a b : Int) (ha : IntTy.i16.InRange a) (hb : IntTy.u64.InRange b) (hnz : b ≠ 0)
@@ -243,7 +243,7 @@ theorem div_i16_u64_exact (a b : Int) (ha : IntTy.i16.InRange a) (hb : IntTy.u64
   exact e hr
 
 theorem div_i16_u64_zero (a : Int) : div_i16_u64 a 0 = .ok none := by
-  gen_unfold_div; c06_norm; rfl
+  gen_unfold_div; c06_zero
 
 /-- `div(u64, i8)` is computed in `u64` -/
 theorem div_u64_i8_correct (a b : Int) (ha : IntTy.u64.InRange a) (hb : IntTy.i8.InRange b) (hnz : b ≠ 0)
@@ -269,7 +269,7 @@ theorem div_u64_i8_exact (a b : Int) (ha : IntTy.u64.InRange a) (hb : IntTy.i8.I
   exact e hr
 
 theorem div_u64_i8_zero (a : Int) : div_u64_i8 a 0 = .ok none := by
-  gen_unfold_div; c06_norm; rfl
+  gen_unfold_div; c06_zero
 
 /-- `div(i32, i64)` is computed in `i64` -/
 theorem div_i32_i64_correct (a b : Int) (ha : IntTy.i32.InRange a) (hb : IntTy.i64.InRange b) (hnz : b ≠ 0)
@@ -294,7 +294,7 @@ theorem div_i32_i64_exact (a b : Int) (ha : IntTy.i32.InRange a) (hb : IntTy.i64
   exact e hr
 
 theorem div_i32_i64_zero (a : Int) : div_i32_i64 a 0 = .ok none := by
-  gen_unfold_div; c06_norm; rfl
+  gen_unfold_div; c06_zero
 
 /-- `div(u32, u64)` is computed in `u64` -/
 theorem div_u32_u64_correct (a b : Int) (ha : IntTy.u32.InRange a) (hb : IntTy.u64.InRange b) (hnz : b ≠ 0)
@@ -319,7 +319,7 @@ theorem div_u32_u64_exact (a b : Int) (ha : IntTy.u32.InRange a) (hb : IntTy.u64
   exact e hr
 
 theorem div_u32_u64_zero (a : Int) : div_u32_u64 a 0 = .ok none := by
-  gen_unfold_div; c06_norm; rfl
+  gen_unfold_div; c06_zero
 
 /-- the conversion is visible: `div(int32_t{-6}, uint32_t{3})` divides 4294967290 by 3 -/
 example : div_i32_u32 (-6) 3 = .ok (some 1431655763) := by rfl
